@@ -200,7 +200,13 @@ def rdc_inputs(F, rng, corners, n_rand):
     for _ in range(n_rand):
         ts.add(clmul(F.rnd(rng), F.rnd(rng)))
         ts.add(rng.getrandbits(top))
-    return sorted(t for t in ts if t.bit_length() <= top)
+    # the whole double-length vector (2 * digits words): the routine takes a digit vector, not only products
+    full = 2 * F.fd * F.wbits
+    wide = {(1 << full) - 1, 1 << (full - 1), (1 << (full - 1)) | 1, ((1 << F.wbits) - 1) << (full - F.wbits),
+            1 << (full - F.wbits), (1 << (full - F.wbits)) | (1 << top), (1 << full) - 1 - ((1 << m) - 1)}
+    for _ in range(max(3, n_rand // 8)):
+        wide.add(rng.getrandbits(full) | (1 << (full - 1 - rng.randrange(F.wbits))))
+    return sorted(t for t in ts if t.bit_length() <= top) + sorted(wide)
 
 
 def gen_field(F, rng, tier, exhaustive=False, ext=True, budget=1.0, full_variants=False):
@@ -340,7 +346,9 @@ def gen_field(F, rng, tier, exhaustive=False, ext=True, budget=1.0, full_variant
     # ---- reductions
     ts = rdc_inputs(F, rng, cs, nr(40 if quick else 500))
     if quick and len(ts) > nr(260):
-        ts = ts[:12] + rng.sample(ts[12:], nr(260) - 12)
+        wide = [t for t in ts if t.bit_length() > 2 * m - 1]
+        rest = [t for t in ts if t.bit_length() <= 2 * m - 1]
+        ts = rest[:12] + rng.sample(rest[12:], min(len(rest) - 12, nr(260) - 12)) + wide
     for op in RDC:
         for t in ts:
             if op == "fb_rdc_basic" and (t == 0 or (t.bit_length() > F.wbits * F.fd and pmod(t, F.f) == 0)):
